@@ -4,6 +4,7 @@ CONSTANTS
   Sizes = {0, 1, 2, 3, 4}
   MaxFaults = 1
   FaultKinds = {"Flip", "Drop", "Dup", "Swap", "Cut"}
+  Foreign = {}
   MaxHist = 99
 CONSTRAINT Bound
 ACTION_CONSTRAINT EmitBehaviour
